@@ -8,6 +8,8 @@ import (
 
 	"github.com/hashicorp/hcl-lang/decoder"
 	"github.com/hashicorp/hcl-lang/reference"
+	"github.com/hashicorp/hcl-lang/schema"
+	"github.com/hashicorp/hcl/v2"
 	"github.com/hashicorp/hcl/v2/hclsyntax"
 	"github.com/zclconf/go-cty/cty"
 
@@ -36,9 +38,9 @@ func (c19) Meta() Meta {
 
 func c19Params(tier string) int {
 	if tier == "thorough" {
-		return 1500
+		return 20000
 	}
-	return 200
+	return 1500
 }
 
 func (p c19) NumUnits(tier string, seed int64) int { return c19Params(tier) }
@@ -69,10 +71,24 @@ func symbolLines(ss []decoder.Symbol, prefix string, out *[]string) {
 }
 
 // knownOutline lists the attributes and blocks of a native body that the
-// model's effective schema knows.
+// effective schema knows - which is what the JSON rendering can be decoded
+// into (dynamic blocks per the model's account of the DynamicBlocks extension).
 func knownOutline(body *hclsyntax.Body, e *model.Eff, prefix string, out *[]string) {
+	knownOutlineU(body, e, false, prefix, out)
+}
+
+// knownOutlineU: unk = some enclosing block selects its dependent body by keys that resolve to none
+// (or only to the first level), or has no static body: validation reports nothing as unexpected there.
+func knownOutlineU(body *hclsyntax.Body, e *model.Eff, unk bool, prefix string, out *[]string) {
 	if !e.Known {
 		return
+	}
+	if onDynamicBlock != nil {
+		for _, b := range body.Blocks {
+			if b.Type == "dynamic" && e.Blocks["dynamic"] == nil {
+				onDynamicBlock(b, e.DynTypes != nil, unk)
+			}
+		}
 	}
 	for name := range body.Attributes {
 		if as, _ := e.AttrSchema(name); as != nil {
@@ -81,6 +97,43 @@ func knownOutline(body *hclsyntax.Body, e *model.Eff, prefix string, out *[]stri
 	}
 	for _, b := range body.Blocks {
 		bs := e.Blocks[b.Type]
+		if bs == nil && b.Type == "dynamic" && e.DynTypes != nil {
+			// dynamic "<type>" { for_each, iterator, labels, content { <body of the type> } }
+			name := "dynamic"
+			for _, l := range b.Labels {
+				name += fmt.Sprintf(" %q", l)
+			}
+			*out = append(*out, "block "+prefix+"/"+name)
+			for an := range b.Body.Attributes {
+				if an == "for_each" || an == "iterator" || an == "labels" {
+					*out = append(*out, "attribute "+prefix+"/"+name+"/"+an)
+				}
+			}
+			if len(b.Labels) < 1 || !e.DynTypes[b.Labels[0]] || e.Blocks[b.Labels[0]] == nil {
+				continue // content is only known for the types registered with the dynamic block
+			}
+			tbs := e.Blocks[b.Labels[0]]
+			for _, cb := range b.Body.Blocks {
+				if cb.Type != "content" {
+					continue
+				}
+				*out = append(*out, "block "+prefix+"/"+name+"/content")
+				if tbs.Body == nil {
+					continue
+				}
+				// (key attributes of the type's static body find no dependent body in the
+				// content block's schema: the lookup fails and validation treats the
+				// content as of unknown schema)
+				cunk := unk
+				for _, as := range tbs.Body.Attributes {
+					if as.IsDepKey {
+						cunk = true
+					}
+				}
+				knownOutlineU(cb.Body, model.EffContent(tbs, b.Labels[0], e), cunk, prefix+"/"+name+"/content", out)
+			}
+			continue
+		}
 		if bs == nil {
 			continue
 		}
@@ -93,8 +146,31 @@ func knownOutline(body *hclsyntax.Body, e *model.Eff, prefix string, out *[]stri
 		if bs.Body == nil && ne.Dep == nil {
 			continue
 		}
-		knownOutline(b.Body, ne, prefix+"/"+name, out)
+		knownOutlineU(b.Body, ne, unk || ne.Lookup == model.Unresolved || ne.Lookup == model.Partial || bs.Body == nil, prefix+"/"+name, out)
 	}
+}
+
+// onDynamicBlock, when set, is told for every written dynamic block of a walked
+// body whether the merged schema of that body knows dynamic blocks (single
+// threaded use inside one worker).
+var onDynamicBlock func(b *hclsyntax.Block, known, unknownZone bool)
+
+// dynamicBlocksKnown walks a native body with the schema-known outline model
+// and reports, per written dynamic block (keyed by its header range), whether
+// the schema of the body it is written in declares dynamic blocks. Dynamic
+// blocks in places the model does not walk (unknown bodies) are absent.
+func dynamicBlocksKnown(body *hclsyntax.Body, root *schema.BodySchema) (known map[hcl.Range]bool, unknownZone map[hcl.Range]bool) {
+	known, unknownZone = map[hcl.Range]bool{}, map[hcl.Range]bool{}
+	onDynamicBlock = func(b *hclsyntax.Block, k, u bool) {
+		known[b.DefRange()] = k
+		if u {
+			unknownZone[b.DefRange()] = true
+		}
+	}
+	defer func() { onDynamicBlock = nil }()
+	var sink []string
+	knownOutline(body, model.EffRoot(root), "", &sink)
+	return known, unknownZone
 }
 
 func (p c19) RunUnit(idx int, tier string, seed int64, focus map[string]string, rep *runner.Reporter) {
@@ -167,6 +243,34 @@ func (p c19) RunUnit(idx int, tier string, seed int64, focus map[string]string, 
 		if mo, ok := o.(reference.MatchableOrigin); ok && !isLocalName(mo.Address()) {
 			oj = append(oj, mo.Address().String())
 		}
+	}
+	// A JSON string cannot say whether it is a quoted literal or a bare reference:
+	// where a constraint admits both, a literal like "bar" reads as the reference
+	// bar in JSON only. Origins whose address is the text of a string literal of the
+	// native file are therefore not counted on the JSON side.
+	if nb, ok := envN.PathCtx[gen.GenPath].Files["main.tf"].Body.(*hclsyntax.Body); ok {
+		lits := map[string]bool{}
+		hclsyntax.VisitAll(nb, func(n hclsyntax.Node) hcl.Diagnostics {
+			if te, ok := n.(*hclsyntax.TemplateExpr); ok && len(te.Parts) == 1 {
+				if lv, ok := te.Parts[0].(*hclsyntax.LiteralValueExpr); ok && lv.Val.Type() == cty.String && !lv.Val.IsNull() {
+					lits[lv.Val.AsString()] = true
+				}
+			}
+			return nil
+		})
+		inNative := map[string]int{}
+		for _, x := range on {
+			inNative[x]++
+		}
+		kept := oj[:0]
+		for _, x := range oj {
+			if lits[x] && inNative[x] == 0 {
+				rep.Count("ambiguous_json_strings_not_counted", 1)
+				continue
+			}
+			kept = append(kept, x)
+		}
+		oj = kept
 	}
 	cmp("origins", on, oj)
 	// outline: JSON can only show what the schema knows, so the native outline
